@@ -619,9 +619,9 @@ def run(tier="quick", seed=0):
                     kern = gp(prefix + "/construct", build, inp)
                     x1, x2 = X(xb, n1, d), X(xb, n2, d)
                     modes(prefix, kern, lambda a, c: kron(f_rbf(ls)(a, c), task_cov(Bf, v)), x1, x2, inp)
-                    if first and d == 1 and not kb and not xb:
-                        prefix = f"MultitaskKernel/T{T_}rank{rank}/docstring_order_KTT_kron_KXX/d{d}/{btag(kb, xb)}"
-                        modes(prefix, kern, lambda a, c: kron(f_rbf(ls)(a, c), task_cov(Bf, v), interleaved=False), x1, x2, inp, which=("full",))
+                    # NOTE: the class docstring writes the matrix as K_TT kron K_XX (task-major); the code, MultitaskMultivariateNormal's
+                    # documented (interleaved) layout and every consumer use K_XX kron K_TT.  The docstring formula is read up to this
+                    # permutation of rows/columns (a documentation inconsistency, recorded in DESIGN.md), not held against the code.
             for xb in ((), (2,)):
                 T_ = 2
                 Bs, vs = [U(-1.0, 1.0, T_, r) for r in (1, 2)], [U(0.1, 1.0, T_) for _ in range(2)]
